@@ -106,7 +106,10 @@ class StmtMixin:
         for st1, c in self.ev(s.test, st):
             tc = truth(self.as_value(c))
             k = self.ordinal("assert", s)
-            self.oblige(st1, "assert", f"#{k}", tc, descr=f"assert {ast.unparse(s.test)}", node=s)
+            allowed = getattr(self, "cur_raises", {})
+            if not ("AssertionError" in allowed or "*" in allowed or "Exception" in allowed):
+                # (when the contract permits AssertionError the failing path is judged by its `raises` clause)
+                self.oblige(st1, "assert", f"#{k}", tc, descr=f"assert {ast.unparse(s.test)}", node=s)
             bad = st1.assume(z3.Not(tc))
             if not self.dry and self.feasible(bad):
                 self.excs[-1].append(Outcome("exc", bad, Exc("AssertionError")))
